@@ -877,6 +877,8 @@ impl RegexVec {
                     }
                     out.push(')');
                 }
+                // an empty look-ahead (lazy lexemes without a stop pattern) hides nothing
+                "Lookahead" if format!("{:?}", x.get_tag(args[0])) == "EmptyString" => out.push_str("(eps)"),
                 "Not" => {
                     out.push_str("(not ");
                     if !go(x, dc, args[0], out) {
